@@ -59,9 +59,12 @@ impl Op {
 
 pub struct KindInfo {
     pub name: &'static str,
+    pub prop: &'static str,
     pub weight: u32,
     pub gen: fn(&mut Rng) -> (u64, u64, u64),
     pub run: fn(&Op) -> Vec<u8>,
+    /// reference-model answer (None = the serial build is the only oracle)
+    pub expect: Option<fn(&Op) -> Option<Vec<u8>>>,
     /// what the parameters mean (for the evidence file)
     pub doc: &'static str,
 }
@@ -712,26 +715,28 @@ fn gen_mv_sparse(rng: &mut Rng) -> (u64, u64, u64) {
 }
 
 pub fn kinds() -> Vec<KindInfo> {
-    vec![
-        KindInfo { name: "fft", weight: 10, gen: gen_fft, run: run_fft, doc: "a=log2(domain size) b=input length c: bit0 inverse, bit1 coset, bit2 GeneralEvaluationDomain; BLS12-381 Fr" },
-        KindInfo { name: "fft_group", weight: 2, gen: gen_fft_group, run: run_fft_group, doc: "FFT with G1Projective coefficients; a=log2(size) b=input length c as fft" },
-        KindInfo { name: "fft_mixed", weight: 5, gen: gen_fft_mixed, run: run_fft_mixed, doc: "mixed-radix / general domain over bn384 Fr; a=num_coeffs b=input length c as fft" },
-        KindInfo { name: "evals_arith", weight: 4, gen: gen_evals_arith, run: run_evals_arith, doc: "Evaluations mul/add/sub/div/scale/interpolate, mul_polynomials_in_evaluation_domain; a=log2(size)" },
-        KindInfo { name: "dense_eval", weight: 8, gen: gen_dense_eval, run: run_dense_eval, doc: "DensePolynomial::evaluate; a=number of coefficients" },
-        KindInfo { name: "dense_arith", weight: 5, gen: gen_dense_arith, run: run_dense_arith, doc: "dense/sparse add, sub, mul, scale, neg; a,b=lengths c=operation" },
-        KindInfo { name: "vanishing", weight: 4, gen: gen_vanishing, run: run_vanishing, doc: "mul_by_vanishing_poly / divide_by_vanishing_poly; a=poly length b=log2(domain)" },
-        KindInfo { name: "eval_over_domain", weight: 6, gen: gen_eval_over_domain, run: run_eval_over_domain, doc: "evaluate_over_domain(_by_ref) of dense and sparse polynomials, also longer than the domain; a=length b=log2(domain) c: variant, bit3 coset" },
-        KindInfo { name: "lagrange", weight: 4, gen: gen_lagrange, run: run_lagrange, doc: "evaluate_all_lagrange_coefficients; a=log2(size) c: tau in domain / zero / random, bit2 coset" },
-        KindInfo { name: "batch_inv", weight: 8, gen: gen_batch_inv, run: run_batch_inv, doc: "batch_inversion(_and_mul); a=length b=percentage of zeros" },
-        KindInfo { name: "msm", weight: 8, gen: gen_msm, run: run_msm, doc: "msm / msm_unchecked / msm_bigint / msm_chunks on G1, G2, Jubjub; a=#bases b=#scalars (MAX = same)" },
-        KindInfo { name: "batch_mul", weight: 3, gen: gen_batch_mul, run: run_batch_mul, doc: "ScalarMul::batch_mul and BatchMulPreprocessing; a=#scalars b=table size hint" },
-        KindInfo { name: "normalize", weight: 5, gen: gen_normalize, run: run_normalize, doc: "normalize_batch on SW (G1, G2) and TE; a=length" },
-        KindInfo { name: "pairing", weight: 3, gen: gen_pairing, run: run_pairing, doc: "multi_miller_loop / multi_pairing on BLS12-381; a=#pairs b=identity mask" },
-        KindInfo { name: "batch_check", weight: 5, gen: gen_batch_check, run: run_batch_check, doc: "Vec/array/tuple of points deserialized with Validate::Yes; a=length b=position of an out-of-subgroup point (MAX = none)" },
-        KindInfo { name: "mle", weight: 4, gen: gen_mle, run: run_mle, doc: "DenseMultilinearExtension add/sub/neg/scale/relabel/fix_variables/evaluate; a=num_vars" },
-        KindInfo { name: "sparse_mle", weight: 3, gen: gen_sparse_mle, run: run_sparse_mle, doc: "SparseMultilinearExtension arithmetic/fix_variables/evaluate; a=num_vars b=non-zero entries" },
-        KindInfo { name: "mv_sparse", weight: 2, gen: gen_mv_sparse, run: run_mv_sparse, doc: "multivariate SparsePolynomial evaluate/add/neg; a=#terms b=#vars" },
-    ]
+    let mut v = vec![
+        KindInfo { name: "fft", prop: "C14", expect: None, weight: 10, gen: gen_fft, run: run_fft, doc: "a=log2(domain size) b=input length c: bit0 inverse, bit1 coset, bit2 GeneralEvaluationDomain; BLS12-381 Fr" },
+        KindInfo { name: "fft_group", prop: "C14", expect: None, weight: 2, gen: gen_fft_group, run: run_fft_group, doc: "FFT with G1Projective coefficients; a=log2(size) b=input length c as fft" },
+        KindInfo { name: "fft_mixed", prop: "C14", expect: None, weight: 5, gen: gen_fft_mixed, run: run_fft_mixed, doc: "mixed-radix / general domain over bn384 Fr; a=num_coeffs b=input length c as fft" },
+        KindInfo { name: "evals_arith", prop: "C14", expect: None, weight: 4, gen: gen_evals_arith, run: run_evals_arith, doc: "Evaluations mul/add/sub/div/scale/interpolate, mul_polynomials_in_evaluation_domain; a=log2(size)" },
+        KindInfo { name: "dense_eval", prop: "C14", expect: None, weight: 8, gen: gen_dense_eval, run: run_dense_eval, doc: "DensePolynomial::evaluate; a=number of coefficients" },
+        KindInfo { name: "dense_arith", prop: "C14", expect: None, weight: 5, gen: gen_dense_arith, run: run_dense_arith, doc: "dense/sparse add, sub, mul, scale, neg; a,b=lengths c=operation" },
+        KindInfo { name: "vanishing", prop: "C14", expect: None, weight: 4, gen: gen_vanishing, run: run_vanishing, doc: "mul_by_vanishing_poly / divide_by_vanishing_poly; a=poly length b=log2(domain)" },
+        KindInfo { name: "eval_over_domain", prop: "C14", expect: None, weight: 6, gen: gen_eval_over_domain, run: run_eval_over_domain, doc: "evaluate_over_domain(_by_ref) of dense and sparse polynomials, also longer than the domain; a=length b=log2(domain) c: variant, bit3 coset" },
+        KindInfo { name: "lagrange", prop: "C14", expect: None, weight: 4, gen: gen_lagrange, run: run_lagrange, doc: "evaluate_all_lagrange_coefficients; a=log2(size) c: tau in domain / zero / random, bit2 coset" },
+        KindInfo { name: "batch_inv", prop: "C14", expect: None, weight: 8, gen: gen_batch_inv, run: run_batch_inv, doc: "batch_inversion(_and_mul); a=length b=percentage of zeros" },
+        KindInfo { name: "msm", prop: "C14", expect: None, weight: 8, gen: gen_msm, run: run_msm, doc: "msm / msm_unchecked / msm_bigint / msm_chunks on G1, G2, Jubjub; a=#bases b=#scalars (MAX = same)" },
+        KindInfo { name: "batch_mul", prop: "C14", expect: None, weight: 3, gen: gen_batch_mul, run: run_batch_mul, doc: "ScalarMul::batch_mul and BatchMulPreprocessing; a=#scalars b=table size hint" },
+        KindInfo { name: "normalize", prop: "C14", expect: None, weight: 5, gen: gen_normalize, run: run_normalize, doc: "normalize_batch on SW (G1, G2) and TE; a=length" },
+        KindInfo { name: "pairing", prop: "C14", expect: None, weight: 3, gen: gen_pairing, run: run_pairing, doc: "multi_miller_loop / multi_pairing on BLS12-381; a=#pairs b=identity mask" },
+        KindInfo { name: "batch_check", prop: "C14", expect: None, weight: 5, gen: gen_batch_check, run: run_batch_check, doc: "Vec/array/tuple of points deserialized with Validate::Yes; a=length b=position of an out-of-subgroup point (MAX = none)" },
+        KindInfo { name: "mle", prop: "C14", expect: None, weight: 4, gen: gen_mle, run: run_mle, doc: "DenseMultilinearExtension add/sub/neg/scale/relabel/fix_variables/evaluate; a=num_vars" },
+        KindInfo { name: "sparse_mle", prop: "C14", expect: None, weight: 3, gen: gen_sparse_mle, run: run_sparse_mle, doc: "SparseMultilinearExtension arithmetic/fix_variables/evaluate; a=num_vars b=non-zero entries" },
+        KindInfo { name: "mv_sparse", prop: "C14", expect: None, weight: 2, gen: gen_mv_sparse, run: run_mv_sparse, doc: "multivariate SparsePolynomial evaluate/add/neg; a=#terms b=#vars" },
+    ];
+    v.extend(crate::hist::kinds());
+    v
 }
 
 #[allow(dead_code)]
